@@ -199,6 +199,45 @@ pub fn escape_ts_string_expr(expr: &Expr) -> Expr {
     }
 }
 
+/// A type is declared as `type <name> = ..`, where nothing can be quoted: a name that is not an
+/// identifier, or that is a word TypeScript reserves, cannot be declared at all.
+/// Only names known at compile time (the identifier, or a literal `rename`) are looked at.
+pub fn assert_declarable_name(name: &Expr) -> Result<()> {
+    const RESERVED: &[&str] = &[
+        "break", "case", "catch", "class", "const", "continue", "debugger", "default", "delete",
+        "do", "else", "enum", "export", "extends", "false", "finally", "for", "function", "if",
+        "import", "in", "instanceof", "new", "null", "return", "super", "switch", "this", "throw",
+        "true", "try", "typeof", "var", "void", "while", "with", "implements", "interface", "let",
+        "package", "private", "protected", "public", "static", "yield", "await", "any", "unknown",
+        "never", "number", "bigint", "boolean", "string", "symbol", "object", "undefined",
+    ];
+
+    match name {
+        Expr::Lit(ExprLit {
+            lit: Lit::Str(str), ..
+        }) => {
+            let name = str.value();
+            // (what lies outside of ASCII is left to TypeScript's own rules for identifiers)
+            let is_identifier = !name.starts_with(|c: char| c.is_ascii_digit())
+                && !name.is_empty()
+                && name
+                    .chars()
+                    .all(|c| c == '_' || c == '$' || c.is_ascii_alphanumeric() || !c.is_ascii());
+            if !is_identifier {
+                syn_err!(str.span(); "`{name}` cannot be the name of a TypeScript type: it is not an identifier");
+            }
+            if RESERVED.contains(&name.as_str()) {
+                syn_err!(str.span(); "`{name}` cannot be the name of a TypeScript type: it is a reserved word; use `#[ts(rename = \"..\")]`");
+            }
+            Ok(())
+        }
+        Expr::Group(syn::ExprGroup { expr, .. }) | Expr::Paren(syn::ExprParen { expr, .. }) => {
+            assert_declarable_name(expr)
+        }
+        _ => Ok(()),
+    }
+}
+
 /// Parse all `#[ts(..)]` attributes from the given slice.
 pub(crate) fn parse_attrs<'a, A>(attrs: &'a [Attribute]) -> Result<A>
 where
